@@ -1,6 +1,6 @@
 (* C10 — property theorems only. Each is closed by `exact` of a lemma proved in Proofs.v /
    ProofsConc.v / Orig.v and is followed by Print Assumptions. *)
-From C10 Require Import Model Spec Proofs Orig ModelConc ProofsConc ProofsKey.
+From C10 Require Import Model Spec Proofs Orig ModelConc ProofsConc ProofsKey ModelDoc ProofsDoc.
 From Coq Require Import Sorting.Sorted.
 
 (* (1) The outcome of a call depends only on the methods defined at that moment: for EVERY
@@ -291,3 +291,52 @@ Theorem C10_collapsing_key_refuted :
   snd (run ct_list (new_aux 1) ops_list_cons) = pure_run ct_list [] ops_list_cons.
 Proof. exact collapsing_key_refuted. Qed.
 Print Assumptions C10_collapsing_key_refuted.
+
+(* (13) How a method is written. A required parameter specialized on t may be written `a` or
+   `(a t)`; the method table entry keeps the parameter list of the defmethod that created it and
+   remove-method finds the entry through that list (ModelDoc.v). For EVERY history of
+   defmethod in any spelling / find-method + remove-method / call, the repaired code (C10-9)
+   answers exactly as on the history in which the methods are named by their specializers - so
+   all theorems above apply to it - ; remove-method leaves no method with the qualifier under the
+   specializers find-method was given, whatever the state; a second defmethod in another spelling
+   replaces the first. The unrepaired remove-method (parameter list rendered with "" for a bare
+   parameter) is refuted: after (defmethod g (a) ..) the removal does nothing and the next call
+   still runs the method, also when the method was meanwhile redefined as ((a t)). *)
+Theorem C10_spelling_irrelevant : forall ct n ops,
+  snd (srun form_key ct (new_saux n) ops) = snd (run ct (new_aux n) (map erase ops)).
+Proof. exact spelling_irrelevant. Qed.
+Print Assumptions C10_spelling_irrelevant.
+
+Theorem C10_spelling_irrelevant_from_any_state : forall ct ops s, docs_inv s ->
+  s_aux (fst (srun form_key ct s ops)) = fst (run ct (s_aux s) (map erase ops)) /\
+  snd (srun form_key ct s ops) = snd (run ct (s_aux s) (map erase ops)).
+Proof. exact srun_erase. Qed.
+Print Assumptions C10_spelling_irrelevant_from_any_state.
+
+Theorem C10_remove_method_removes : forall ct s q k, docs_inv s ->
+  get_qual_of (methods (s_aux (fst (sstep form_key ct s (SRemove q k))))) k q = None.
+Proof. exact remove_removes. Qed.
+Print Assumptions C10_remove_method_removes.
+
+Theorem C10_redefinition_in_other_spelling_replaces : forall ct s q ps1 ps2 b1 b2,
+  form_key ps1 = form_key ps2 ->
+  s_aux (fst (srun form_key ct s [SDef q ps1 b1; SDef q ps2 b2])) =
+  add_method (add_method (s_aux s) q (form_key ps1) b1) q (form_key ps1) b2.
+Proof. exact redefinition_replaces. Qed.
+Print Assumptions C10_redefinition_in_other_spelling_replaces.
+
+Theorem C10_original_bare_remove_refuted :
+  map erase wit_ops = map erase wit_ops_t /\
+  snd (srun doc_key_orig wit_ct (new_saux 1) wit_ops) = [None; None; Some ([Ev 1%N [false]], RVal 1%N)] /\
+  snd (srun doc_key_orig wit_ct (new_saux 1) wit_ops_t) = [None; None; Some ([], RNoApplicable)] /\
+  spec_run wit_ct [] (map erase wit_ops) = [None; None; Some ([], RNoApplicable)] /\
+  snd (srun form_key wit_ct (new_saux 1) wit_ops) = [None; None; Some ([], RNoApplicable)].
+Proof. exact original_bare_remove_refuted. Qed.
+Print Assumptions C10_original_bare_remove_refuted.
+
+Theorem C10_original_bare_remove_after_redefinition_refuted :
+  snd (srun doc_key_orig wit_ct (new_saux 1)
+         [SDef QPrimary [None] wit_body; SDef QPrimary [Some "t"] wit_body; SRemove QPrimary ["t"]; SCall ["fixnum"] [false]])
+  = [None; None; None; Some ([Ev 1%N [false]], RVal 1%N)].
+Proof. exact original_bare_remove_after_redefinition_refuted. Qed.
+Print Assumptions C10_original_bare_remove_after_redefinition_refuted.
